@@ -14,7 +14,7 @@
 EXTENDS Naturals, Sequences, FiniteSets, TLC
 
 (* branch names in use and their order: numeric-aware (1.9 < 1.10 < 2.0), master last *)
-BranchNames == << "release/1.9", "release/1.10", "release/2.0", "master" >>
+BranchNames == << "release/1.9", "release/1.10", "release/1.10.1", "master" >>     \* 1.10 is a proper prefix of 1.10.1
 Rank(b) == CHOOSE i \in 1 .. Len(BranchNames) : BranchNames[i] = b
 
 (* H: a history record [n, parents, match, tagged, head] ; head: function branch name -> commit *)
